@@ -224,7 +224,7 @@ func GenExpr(r *Rand) Expr {
 		{".c.x | parent(2) | .id", "path", true, false},
 		{".e[0].k | parent(1) | .v", "path", true, false},
 		{".d | array_to_map", "construct", false, false},
-				{".a | to_string", "string", false, false},
+		{".a | to_string", "string", false, false},
 		{".b | trim", "string", false, false},
 		{".b | downcase", "string", false, false},
 		{".c | omit([\"x\"])", "construct", false, false},
@@ -241,7 +241,7 @@ func GenExpr(r *Rand) Expr {
 		{". *? {\"a\": 100, \"zz\": 1}", "merge", false, false},
 		{". *d {\"c\": {\"x\": 0}}", "merge", false, false},
 		{". *n {\"a\": 100, \"zz\": 1}", "merge", false, false},
-						{".d - [" + n + "]", "construct", false, false},
+		{".d - [" + n + "]", "construct", false, false},
 		{".d + .d", "construct", false, false},
 		{".c + {\"w\": 1}", "construct", false, false},
 		{".a / 2", "construct", false, false},
